@@ -423,6 +423,14 @@ def RecShapeD (E : Env) (f : Fwd) (o : Id) (t : T) (l : Id) : Prop :=
   (t = E.t0 o ∧ ∃ ids, f.initShape = some ids ∧ l ∈ ids) ∨
   (E.kind o = Kind.dynTraj ∧ ∃ d, f.predShape = some d ∧ itemsMem d t l)
 
+/-- recorded centre-lanelet relation of a static obstacle: `l ∈ initial_center_lanelet_ids` -/
+def RecCenS (f : Fwd) (l : Id) : Prop := ∃ ids, f.initCenter = some ids ∧ l ∈ ids
+
+/-- recorded centre-lanelet relation of a dynamic obstacle at time step `t` -/
+def RecCenD (E : Env) (f : Fwd) (o : Id) (t : T) (l : Id) : Prop :=
+  (t = E.t0 o ∧ ∃ ids, f.initCenter = some ids ∧ l ∈ ids) ∨
+  (E.kind o = Kind.dynTraj ∧ ∃ d, f.predCenter = some d ∧ itemsMem d t l)
+
 /-- the shape lookup as far as the code consults it: never for a SetBasedPrediction (whose sets stay `set()`) -/
 def effShp (E : Env) (o : Id) (t : T) : List Id := if E.kind o = Kind.dynSet then [] else E.shp o t
 
@@ -434,6 +442,14 @@ theorem mem_effShp {E : Env} {o l : Id} {t : T} : l ∈ effShp E o t ↔ (E.kind
 
 theorem effShp_of_ne {E : Env} {o : Id} (t : T) (h : E.kind o ≠ Kind.dynSet) : effShp E o t = E.shp o t := by
   unfold effShp; rw [if_neg h]
+
+theorem effShp_nodup {E : Env} (hw : WfEnv E) (o : Id) (t : T) : (effShp E o t).Nodup := by
+  unfold effShp; split
+  · exact List.nodup_nil
+  · exact hw.shp_nodup o t
+
+theorem effShp_sub {E : Env} (hw : WfEnv E) {o l : Id} {t : T} (h : l ∈ effShp E o t) : l ∈ E.lanelets :=
+  hw.shp_sub o t l (mem_effShp.mp h).2
 
 /-- the centre lookup as far as the code consults it -/
 def effCen (E : Env) (o : Id) (t : T) : List Id := if E.kind o = Kind.dynSet then [] else E.cen o t
@@ -569,18 +585,140 @@ theorem addStaticReg_spec (E : Env) (o : Id) (f : Fwd) (r r' : SReg) (h : addSta
       rw [(regStatic_spec E o ids _ _ h).2]
       simp [RecShapeS, hs, hl]
 
-theorem removeStaticReg_spec (E : Env) (o : Id) (f : Fwd) (r r' : SReg) (h : removeStaticReg E o f r = .ok r') :
-    ∀ l x, x ∈ r' l ↔ x ∈ r l ∧ ¬(x = o ∧ f.initCenter.isSome ∧ RecShapeS f l) := by
+theorem discardStatic_spec (E : Env) (o : Id) : ∀ (ids : List Id) (r : SReg) (l x : Id),
+    x ∈ discardStatic E o ids r l ↔ x ∈ r l ∧ ¬(x = o ∧ l ∈ ids ∧ l ∈ E.lanelets) := by
+  intro ids
+  induction ids with
+  | nil => intro r l x; simp [discardStatic]
+  | cons a as ih =>
+    intro r l x
+    simp only [discardStatic, ih, List.mem_cons]
+    by_cases ha : a ∈ E.lanelets
+    · simp only [ha, if_true, mem_sDel]
+      constructor
+      · rintro ⟨⟨h1, h2⟩, h3⟩
+        refine ⟨h1, ?_⟩
+        rintro ⟨rfl, (rfl | h4), h5⟩
+        · exact h2 ⟨rfl, rfl⟩
+        · exact h3 ⟨rfl, h4, h5⟩
+      · rintro ⟨h1, h2⟩
+        exact ⟨⟨h1, fun h3 => h2 ⟨h3.1, Or.inl h3.2, h3.2 ▸ ha⟩⟩, fun h3 => h2 ⟨h3.1, Or.inr h3.2.1, h3.2.2⟩⟩
+    · simp only [ha, if_false]
+      constructor
+      · rintro ⟨h1, h2⟩
+        refine ⟨h1, ?_⟩
+        rintro ⟨rfl, (rfl | h4), h5⟩
+        · exact ha h5
+        · exact h2 ⟨rfl, h4, h5⟩
+      · rintro ⟨h1, h2⟩
+        exact ⟨h1, fun h3 => h2 ⟨h3.1, Or.inr h3.2.1, h3.2.2⟩⟩
+
+theorem removeStaticReg_spec (E : Env) (o : Id) (f : Fwd) (r : SReg) :
+    ∀ l x, x ∈ removeStaticReg E o f r l ↔ x ∈ r l ∧ ¬(x = o ∧ l ∈ E.lanelets ∧ (RecShapeS f l ∨ RecCenS f l)) := by
   intro l x
-  unfold removeStaticReg at h
-  split at h
-  · next hs => cases h; simp [RecShapeS, hs]
-  · next ids hs =>
-    split at h
-    · next hc => cases h; simp [hc]
-    · next c hc =>
-      rw [unregStatic_spec E o ids _ _ h]
-      simp [RecShapeS, hs, hc]
+  unfold removeStaticReg
+  rw [discardStatic_spec]
+  have : l ∈ f.initShape.getD [] ++ f.initCenter.getD [] ↔ (RecShapeS f l ∨ RecCenS f l) := by
+    unfold RecShapeS RecCenS
+    rw [List.mem_append]
+    cases f.initShape <;> cases f.initCenter <;> simp
+  rw [this]
+  constructor
+  · rintro ⟨h1, h2⟩; exact ⟨h1, fun h3 => h2 ⟨h3.1, h3.2.2, h3.2.1⟩⟩
+  · rintro ⟨h1, h2⟩; exact ⟨h1, fun h3 => h2 ⟨h3.1, h3.2.2, h3.2.1⟩⟩
+
+theorem discardDyn_spec (E : Env) (o : Id) (t : T) : ∀ (ids : List Id) (r : DReg),
+    (∀ l t', (discardDyn E o t ids r l t').isSome = (r l t').isSome) ∧
+    ∀ l t' x, memD (discardDyn E o t ids r) l t' x ↔ memD r l t' x ∧ ¬(x = o ∧ t' = t ∧ l ∈ ids ∧ l ∈ E.lanelets) := by
+  intro ids
+  induction ids with
+  | nil => intro r; simp [discardDyn]
+  | cons a as ih =>
+    intro r
+    simp only [discardDyn]
+    obtain ⟨k1, k2⟩ := ih (if a ∈ E.lanelets then dDel r a t o else r)
+    refine ⟨?_, ?_⟩
+    · intro l t'
+      rw [k1]
+      split
+      · exact isSome_dDel
+      · rfl
+    · intro l t' x
+      rw [k2]
+      simp only [List.mem_cons]
+      by_cases ha : a ∈ E.lanelets
+      · simp only [ha, if_true, memD_dDel]
+        constructor
+        · rintro ⟨⟨h1, h2⟩, h3⟩
+          refine ⟨h1, ?_⟩
+          rintro ⟨rfl, rfl, (rfl | h4), h5⟩
+          · exact h2 ⟨rfl, rfl, rfl⟩
+          · exact h3 ⟨rfl, rfl, h4, h5⟩
+        · rintro ⟨h1, h2⟩
+          exact ⟨⟨h1, fun h3 => h2 ⟨h3.1, h3.2.2, Or.inl h3.2.1, h3.2.1 ▸ ha⟩⟩,
+            fun h3 => h2 ⟨h3.1, h3.2.1, Or.inr h3.2.2.1, h3.2.2.2⟩⟩
+      · simp only [ha, if_false]
+        constructor
+        · rintro ⟨h1, h2⟩
+          refine ⟨h1, ?_⟩
+          rintro ⟨rfl, rfl, (rfl | h4), h5⟩
+          · exact ha h5
+          · exact h2 ⟨rfl, rfl, h4, h5⟩
+        · rintro ⟨h1, h2⟩
+          exact ⟨h1, fun h3 => h2 ⟨h3.1, h3.2.1, Or.inr h3.2.2.1, h3.2.2.2⟩⟩
+
+theorem discardItems_spec (E : Env) (o : Id) : ∀ (d : Dict) (r : DReg),
+    (∀ l t, (discardItems E o d r l t).isSome = (r l t).isSome) ∧
+    ∀ l t x, memD (discardItems E o d r) l t x ↔ memD r l t x ∧ ¬(x = o ∧ l ∈ E.lanelets ∧ itemsMem d t l) := by
+  intro d
+  induction d with
+  | nil => intro r; simp [discardItems, itemsMem]
+  | cons a as ih =>
+    obtain ⟨ta, idsa⟩ := a
+    intro r
+    simp only [discardItems]
+    obtain ⟨k1, k2⟩ := ih (discardDyn E o ta idsa r)
+    obtain ⟨g1, g2⟩ := discardDyn_spec E o ta idsa r
+    refine ⟨fun l t => by rw [k1, g1], fun l t x => ?_⟩
+    rw [k2, g2, itemsMem_cons]
+    constructor
+    · rintro ⟨⟨h1, h2⟩, h3⟩
+      refine ⟨h1, ?_⟩
+      rintro ⟨rfl, h4, (⟨rfl, h5⟩ | h5)⟩
+      · exact h2 ⟨rfl, rfl, h5, h4⟩
+      · exact h3 ⟨rfl, h4, h5⟩
+    · rintro ⟨h1, h2⟩
+      exact ⟨⟨h1, fun h3 => h2 ⟨h3.1, h3.2.2.2, Or.inl ⟨h3.2.1, h3.2.2.1⟩⟩⟩, fun h3 => h2 ⟨h3.1, h3.2.1, Or.inr h3.2.2⟩⟩
+
+theorem itemsMem_append_single (d : Dict) (t0 : T) (ic : List Id) (t : T) (l : Id) :
+    itemsMem (d ++ [(t0, ic)]) t l ↔ itemsMem d t l ∨ (t = t0 ∧ l ∈ ic) := by
+  unfold itemsMem
+  simp only [List.mem_append, List.mem_singleton, Prod.mk.injEq]
+  constructor
+  · rintro ⟨ids, (hm | ⟨rfl, rfl⟩), hl⟩
+    · exact Or.inl ⟨ids, hm, hl⟩
+    · exact Or.inr ⟨rfl, hl⟩
+  · rintro (⟨ids, hm, hl⟩ | ⟨rfl, hl⟩)
+    · exact ⟨ids, Or.inl hm, hl⟩
+    · exact ⟨ic, Or.inr ⟨rfl, rfl⟩, hl⟩
+
+theorem unregCenter_spec (E : Env) (o : Id) (f : Fwd) (r : DReg) :
+    (∀ l t, (unregCenter E o f r l t).isSome = (r l t).isSome) ∧
+    ∀ l t x, memD (unregCenter E o f r) l t x ↔ memD r l t x ∧ ¬(x = o ∧ l ∈ E.lanelets ∧ RecCenD E f o t l) := by
+  unfold unregCenter
+  obtain ⟨k1, k2⟩ := discardItems_spec E o
+    ((if E.kind o = Kind.dynTraj then f.predCenter.getD [] else []) ++ [(E.t0 o, f.initCenter.getD [])]) r
+  refine ⟨k1, fun l t x => ?_⟩
+  rw [k2, itemsMem_append_single]
+  have : (itemsMem (if E.kind o = Kind.dynTraj then f.predCenter.getD [] else []) t l ∨
+      (t = E.t0 o ∧ l ∈ f.initCenter.getD [])) ↔ RecCenD E f o t l := by
+    unfold RecCenD
+    by_cases hk : E.kind o = Kind.dynTraj
+    · simp only [hk, if_true, true_and]
+      cases hp : f.predCenter <;> cases hc : f.initCenter <;> simp [itemsMem] <;> exact or_comm
+    · simp only [hk, if_false, false_and, or_false]
+      cases hc : f.initCenter <;> simp [itemsMem]
+  rw [this]
 
 theorem addToLanelets_spec (E : Env) (s s' : St) (o : Id) (h : addToLanelets E s o = .ok s') :
     s'.fwd = s.fwd ∧ s'.statics = s.statics ∧ s'.dynamics = s.dynamics ∧
@@ -738,20 +876,17 @@ theorem inv_remove {E : Env} {s s' : St} {o : Id} (hw : WfEnv E) (hi : Inv E s) 
   unfold remove at h
   split at h
   · next hos =>
-    obtain ⟨r, hr, h⟩ := bind_ok.mp h
-    cases pure_ok.mp h
-    have hsp := removeStaticReg_spec E o _ _ _ hr
+    cases h
     refine ⟨hi.coh, fun x hx => hi.kindS x (List.mem_filter.mp hx).1, hi.kindD, ?_, hi.invD⟩
     intro l x
-    show x ∈ r l ↔ _
-    rw [hsp, hi.invS]
+    show x ∈ removeStaticReg E o (s.fwd o) s.sreg l ↔ _
+    rw [removeStaticReg_spec, hi.invS]
     simp only [true_and, List.mem_filter, decide_eq_true_eq]
     constructor
     · rintro ⟨⟨h1, h2⟩, h3⟩
       refine ⟨⟨h1, ?_⟩, h2⟩
       rintro rfl
-      obtain ⟨ids, h4, h5⟩ := h2
-      exact h3 ⟨rfl, (hi.coh x).center ids h4, ⟨ids, h4, h5⟩⟩
+      exact h3 ⟨rfl, effShp_sub hw (RecShapeS.mem_eff (hi.coh x) h2), Or.inl h2⟩
     · rintro ⟨⟨h1, h2⟩, h3⟩
       exact ⟨⟨h1, h3⟩, fun h4 => h2 h4.1⟩
   · next hos =>
@@ -780,18 +915,18 @@ theorem inv_remove {E : Env} {s s' : St} {o : Id} (hw : WfEnv E) (hi : Inv E s) 
         cases pure_ok.mp h
         refine ⟨hi.coh, hi.kindS, fun x hx => hi.kindD x (List.mem_filter.mp hx).1, hi.invS, ?_⟩
         intro l t x
-        show memD r2 l t x ↔ _
-        rw [unregPred_spec E o _ _ _ hr2, (unregInit_spec E o _ _ _ hr1).2, hi.invD]
+        show memD (unregCenter E o (s.fwd o) r2) l t x ↔ _
+        rw [(unregCenter_spec E o _ _).2, unregPred_spec E o _ _ _ hr2, (unregInit_spec E o _ _ _ hr1).2, hi.invD]
         simp only [true_and, List.mem_filter, decide_eq_true_eq]
         constructor
-        · rintro ⟨⟨⟨h1, h2⟩, h3⟩, h4⟩
+        · rintro ⟨⟨⟨⟨h1, h2⟩, h3⟩, h4⟩, _⟩
           refine ⟨⟨h1, ?_⟩, h2⟩
           rintro rfl
           rcases h2 with ⟨e, h5⟩ | ⟨hk, h5⟩
           · exact h3 ⟨rfl, e, h5⟩
           · exact h4 ⟨rfl, hk, h5⟩
         · rintro ⟨⟨h1, h2⟩, h3⟩
-          exact ⟨⟨⟨h1, h3⟩, fun h4 => h2 h4.1⟩, fun h4 => h2 h4.1⟩
+          exact ⟨⟨⟨⟨h1, h3⟩, fun h4 => h2 h4.1⟩, fun h4 => h2 h4.1⟩, fun h4 => h2 h4.1⟩
     · cases h; exact hi
 
 /-! ### assign_obstacles_to_lanelets keeps the invariant -/
@@ -1737,34 +1872,10 @@ theorem assigned_reopenPb {E : Env} {s s' : St} (h : reopenPb E s = .ok s') :
 
 /-! ### totality: removing never fails -/
 
-theorem effShp_nodup {E : Env} (hw : WfEnv E) (o : Id) (t : T) : (effShp E o t).Nodup := by
-  unfold effShp; split
-  · exact List.nodup_nil
-  · exact hw.shp_nodup o t
-
-theorem effShp_sub {E : Env} (hw : WfEnv E) {o l : Id} {t : T} (h : l ∈ effShp E o t) : l ∈ E.lanelets :=
-  hw.shp_sub o t l (mem_effShp.mp h).2
-
 theorem remove_total {E : Env} {s : St} (hw : WfEnv E) (hi : Inv E s) (o : Id) : ∃ s', remove E s o = .ok s' := by
   unfold remove
   split
-  · next hos =>
-    -- static: `set.remove` finds the id on every lanelet of the shape set
-    have : ∃ r, removeStaticReg E o (s.fwd o) s.sreg = .ok r := by
-      unfold removeStaticReg
-      split
-      · exact ⟨_, rfl⟩
-      · next ids hs =>
-        split
-        · exact ⟨_, rfl⟩
-        · have e := (hi.coh o).initShape ids hs
-          apply unregStatic_ok
-          · rw [e]; exact effShp_nodup hw _ _
-          · intro l hl
-            refine ⟨effShp_sub hw (e ▸ hl), ?_⟩
-            exact (hi.invS l o).mpr ⟨trivial, hos, ids, hs, hl⟩
-    obtain ⟨r, hr⟩ := this
-    exact ⟨_, by rw [hr]; rfl⟩
+  · exact ⟨_, rfl⟩
   · split
     · next hod =>
       split
